@@ -41,7 +41,7 @@ RULE = ('constructor arguments absent / bare / quantities in every unit, humidit
 
 def atmo_line(pbc, alt, p, t, pw, hum):
     def opt(x, slot):
-        if x is None or (not isinstance(x, pbc.AbstractDimension) and not x):
+        if x is None:       # only None means "not given" (a bare 0 is the number 0 in the preferred unit)
             return '-'
         return str(f2b(getattr(pbc.PreferredUnits, slot)(x).raw_value))
     a = 0.0 if (alt is None or (not isinstance(alt, pbc.AbstractDimension) and not alt)) else pbc.PreferredUnits.distance(alt).raw_value
@@ -59,9 +59,9 @@ def correspondence(chk, drv):
     for _ in range(n):
         du, pu, tu = rng.choice(DU), rng.choice(PU), rng.choice(TU)
         alt = rng.choice([None, 0, du(U.Foot(rng.uniform(-1400, 15000)) >> du), rng.uniform(0, 3000)])
-        p = rng.choice([None, 0, pu(U.hPa(rng.uniform(500, 1100)) >> pu), rng.uniform(20, 31)])
-        t = rng.choice([None, tu(U.Celsius(rng.uniform(-60, 60)) >> tu), rng.uniform(-20, 110)])
-        pw = rng.choice([None, None, U.Celsius(rng.uniform(-30, 40)), rng.uniform(10, 90)])
+        p = rng.choice([None, pu(U.hPa(rng.uniform(500, 1100)) >> pu), rng.uniform(20, 31)])
+        t = rng.choice([None, 0, tu(U.Celsius(rng.uniform(-60, 60)) >> tu), rng.uniform(-20, 110)])
+        pw = rng.choice([None, None, 0, U.Celsius(rng.uniform(-30, 40)), rng.uniform(10, 90)])
         hum = rng.choice([0.0, 0, rng.uniform(0, 1), rng.uniform(1, 100), 1.0, 100.0, 50, -0.1, 100.5, 101])
         try:
             a = pbc.Atmo(alt, p, t, hum, pw)
